@@ -352,6 +352,160 @@ def _check_filter_structural(ctx, out, fp, rule="C02.filter"):
     out.inst(rule, n, 8, ["%s c=%s t=%s -> %s" % r for r in rows], exhaustive=True, note="2 filter modes x 2 x 2 valuations, evaluated on the closure's MIR")
 
 
+def check_span_model(ctx, out, rule="C02.span"):
+    """Whether a diff touches a block, decided on a small model (engine.casewalk + listmodel): the two methods of
+    `Block` that take the ordered line changes (`&self, &[LineChange]) -> bool`) are walked, helpers inlined, on
+    concrete positions - a single-line and a two-line start tag, content that ends at column 1 and further in -
+    for changes on every line around the block, whole-line changes (`ranges: None`) and changed character ranges
+    at, before, after and across the span's first and last character, alone and next to a change on another line.
+    One of the methods must answer for the content span - half-open: from the end of the start tag's comment up
+    to, not including, the start of the end tag's comment -, the other for the start tag - inclusive of its `>`:
+        line outside [first.line, last.line]           -> untouched
+        whole-line change on a line of the span        -> touched (the last line included, whatever the end column)
+        ranges: touched iff some range r has r.end > lo and r.start < hi (content) / r.start <= hi (tag), where
+        lo = first.character - 1 on the first line, else 0; hi = last.character - 1 on the last line, else MAX.
+    (Line-change character ranges are 0-based, positions 1-based.) Returns True / False, or None if the model
+    cannot follow the code (the structural rules C01.search / .incl remain)."""
+    from engine import casewalk as CW
+    from engine import listmodel as LM
+    std = CW.std_hooks()
+    lm = LM.hooks()
+    MAXU = (1 << 64) - 1
+    cands = [b for b in ctx.reachable_bodies() if b.promoted is None and b.kind == "AssocFn" and b.impl_self_adt == "blockwatch::blocks::Block" and b.argc == 2
+             and b.local_ty(0) == "bool" and re.match(r"&\[blockwatch::diff_parser::LineChange\]$", b.local_ty(2))]
+    if len(cands) != 2:
+        return None
+
+    def pos(l, c):
+        return CW.adt("blockwatch::Position", "Position", 0, [("line", CW.const(l)), ("character", CW.const(c))])
+
+    def rng(a, b):
+        return CW.adt("std::ops::Range", "Range", 0, [("start", CW.const(a)), ("end", CW.const(b))])
+
+    def change(line, ranges):
+        rv = CW.adt("std::option::Option", "None", 0, []) if ranges is None else CW.adt("std::option::Option", "Some", 1, [("0", LM.lst([rng(a, b) for a, b in ranges]))])
+        return CW.adt("blockwatch::diff_parser::LineChange", "LineChange", 0, [("line", CW.const(line)), ("ranges", rv)])
+
+    def spec(first, last, inclusive, line, ranges):
+        if line < first[0] or line > last[0]:
+            return False
+        if ranges is None:
+            return True
+        lo = first[1] - 1 if line == first[0] else 0
+        hi = last[1] - 1 if line == last[0] else MAXU
+        return any(b > lo and (a <= hi if inclusive else a < hi) for a, b in ranges)
+    configs = [
+        # (tag first, tag last, content first, content last)
+        ((1, 3), (1, 9), (1, 10), (3, 1)),
+        ((1, 3), (2, 4), (2, 5), (4, 3)),
+    ]
+    range_sets = [None, [(0, 1)], [(1, 2)], [(2, 3)], [(3, 4)], [(4, 5)], [(8, 9)], [(9, 10)], [(10, 11)], [(0, 30)], [(0, 1), (9, 10)], [(0, 2), (3, 5)]]
+    tables = {}
+    for b0 in cands:
+        v = ctx.inl(b0, skip=lambda cb: False, tag="all-sugar", sugar=True)
+        rows = {}
+        for ci, (tf, tl, cf, cl) in enumerate(configs):
+            block = CW.adt("blockwatch::blocks::Block", "Block", 0, [
+                ("start_tag_position_range", CW.adt("std::ops::RangeInclusive", "RangeInclusive", 0, [("start", pos(*tf)), ("end", pos(*tl))])),
+                ("content_position_range", CW.adt("std::ops::Range", "Range", 0, [("start", pos(*cf)), ("end", pos(*cl))]))])
+            for line in range(0, 6):
+                for rs in range_sets:
+                    for shape in ("alone", "after", "before"):
+                        lst_ = [change(line, rs)]
+                        if shape == "after":
+                            lst_ = [change(0, None)] + lst_
+                        elif shape == "before":
+                            lst_ = lst_ + [change(9, None)]
+                        results = set()
+
+                        def hook(w, bb, t, argv, env):
+                            nm = callee_name(t)
+                            m = re.search(r"ops::RangeInclusive::<Idx>::(start|end)$", nm)
+                            if m and argv:
+                                a0 = w.deref_val(env, argv[0])
+                                if a0[0] == "adt":
+                                    return w.field(a0, m.group(1))
+                            if re.search(r"ops::RangeInclusive::<Idx>::new$", nm) and len(argv) == 2:
+                                return CW.adt("std::ops::RangeInclusive", "RangeInclusive", 0, [("start", w.deref_val(env, argv[0])), ("end", w.deref_val(env, argv[1]))])
+                            if re.search(r"RangeInclusive::<Idx>::contains$|RangeInclusive<Idx>::contains$|ops::RangeInclusive<.*>::contains$", nm) and len(argv) == 2:
+                                a0, x = w.deref_val(env, argv[0]), w.deref_val(env, argv[1])
+                                lo_, hi_ = w.deref_val(env, w.field(a0, "start")), w.deref_val(env, w.field(a0, "end"))
+                                if all(CW.is_const(z) and isinstance(z[1], int) for z in (lo_, hi_, x)):
+                                    return CW.const(1 if lo_[1] <= x[1] <= hi_[1] else 0)
+                            r_ = lm(w, bb, t, argv, env)
+                            if r_ is not None:
+                                return r_
+                            return std(w, bb, t, argv, env)
+                        w = CW.Walk(ctx, v, [hook], max_states=6000)
+
+                        def on_visit(bb, env):
+                            tm = v.blocks[bb]["term"]
+                            if tm and tm["k"] == "return":
+                                r0 = env.get(0, CW.TOP)
+                                results.add(bool(r0[1]) if CW.is_const(r0) and r0[1] in (0, 1, True, False) else "?")
+                        w.on_visit = on_visit
+                        env = {-9: block, 1: ("ref", -9, (), False), 2: LM.lst(lst_)}
+                        try:
+                            w.explore(0, env)
+                        except CW.Limit:
+                            return None
+                        if len(results) != 1 or "?" in results:
+                            return None
+                        rows[(ci, line, tuple(rs) if rs is not None else None, shape)] = results.pop()
+        tables[b0.id] = rows
+    n = 0
+    roles = {}
+    for bid, rows in tables.items():
+        diffs = {"content": [], "tag": []}
+        for (ci, line, rs, shape), got in rows.items():
+            tf, tl, cf, cl = configs[ci]
+            rl = list(rs) if rs is not None else None
+            if got != spec(cf, cl, False, line, rl):
+                diffs["content"].append((ci, line, rs, shape, got))
+            if got != spec(tf, tl, True, line, rl):
+                diffs["tag"].append((ci, line, rs, shape, got))
+        role = min(diffs, key=lambda k: len(diffs[k]))
+        roles[bid] = (role, diffs[role], len(rows))
+    if sorted(r[0] for r in roles.values()) != ["content", "tag"]:
+        # both methods answer (best) for the same span
+        for bid, (role, d, tot) in roles.items():
+            out.viol(rule, "%s|%s|role" % (rule, bid), ctx.where(ctx.facts.body(bid)), "both change tests of `Block` answer for the %s span on the small model; one must answer for the content, one for the start tag" % role)
+        out.inst(rule, 0, 2)
+        return False
+    ok = True
+    for bid, (role, d, tot) in roles.items():
+        if d:
+            ok = False
+            ci, line, rs, shape, got = d[0]
+            tf, tl, cf, cl = configs[ci]
+            first, last = (cf, cl) if role == "content" else (tf, tl)
+            out.viol(rule, "%s|%s|%s" % (rule, role, "whole-line" if rs is None else "ranges"), ctx.where(ctx.facts.body(bid)),
+                     "`%s` (the %s span, %s from %d:%d to %d:%d): a %s on line %d%s is %s; expected %s (%d of %d cases of the small model differ) - a diff that %s" % (
+                         bid.split("::")[-1], role, "half-open" if role == "content" else "inclusive", first[0], first[1], last[0], last[1],
+                         "whole-line change" if rs is None else "change of characters %s" % (list(rs),), line,
+                         {"alone": "", "after": " (listed after a change on another line)", "before": " (listed before a change on another line)"}[shape],
+                         "reported as touching the span" if got else "not seen", "touching" if not got else "not touching", len(d), tot,
+                         "edits the block goes unnoticed" if not got else "does not touch the block marks it modified"))
+        else:
+            n += 1
+    out.inst(rule, n, 2, ["%s: %s span, %d cases" % (bid.split("::")[-1], r[0], r[2]) for bid, r in roles.items()], exhaustive=True,
+             note="2 block layouts x 6 lines x 12 change shapes x 3 list positions per method")
+    return ok
+
+
+def _span(ctx, out, rule):
+    tr = out.trial()
+    try:
+        verdict = check_span_model(ctx, tr, rule=rule)
+    except Exception as e:      # noqa: BLE001
+        ctx.view_fallbacks.append("%s: small-model analysis failed (%s: %s)" % (rule, type(e).__name__, e))
+        verdict = None
+    if verdict is None:
+        out.inst(rule, 0, 0, note="the small model could not follow the change tests of `Block`; C01.search / .incl decide their structural part")
+    else:
+        out.adopt(tr)
+
+
 def check_inclusive(ctx, out, rule="C02.incl"):
     """Inclusive and half-open position ranges are not confused. (a) In every function taking a
     `&RangeInclusive<Position>` the bound derived from `range.end.character` is an inclusive upper
@@ -886,6 +1040,7 @@ def run(ctx, out, tier):
     check_nonint(ctx, out)
     check_siblings(ctx, out)
     check_inclusive(ctx, out)
+    _span(ctx, out, "C02.span")
     check_scan(ctx, out)
     # "editing only the attributes inside a start tag selects the block": the tag's own position range
     # must be right wherever the tag sits in its comment (shared with C10/C03)
